@@ -1,15 +1,40 @@
 """C06 - secured methods run only after a security requirement is satisfied.
-(M) Security.tla model-checked exhaustively (requirement lists at API/service/method level, NoSecurity, every
-callback verdict vector); (G) every case is run through the real generated client -> server with a recording
-Auther whose verdicts come from the vector; observed calls, credentials, scopes and the invoke flag are judged
-against the model."""
-import json, os
+(M) Security.tla model-checked exhaustively: space "flow" (requirement lists at API/service/method level, NoSecurity, every
+callback verdict vector) and space "cred" (how the credentials travel: per scheme the location - implicit / explicit
+Authorization header, a header of its own, query string -, the form handed over - bare, "Bearer tok", "bearer tok",
+another scheme word, two spaces, empty, absent; basic: lower-case scheme word, other scheme, malformed, absent -, the
+sender - generated client or raw request -, required / optional credential attributes).
+(G) every case is run through the real generated server (request sent by the generated client or written by hand) with a
+recording Auther whose verdicts come from the vector; observed wire credentials, callback arguments, scopes and the invoke
+flag are judged against the oracle terms TLC printed with the vector (Reading, MustRefuse, the sender's wire form)."""
+import base64, hashlib, json, os, threading, urllib.parse
 from vlib import core, httpgen as hg
 
 SCHEMES = [{"name": "b", "kind": "basic"}, {"name": "k", "kind": "apikey"},
            {"name": "j", "kind": "jwt", "scopes": ["r", "w"]}, {"name": "o", "kind": "oauth2", "scopes": ["r", "w"]}]
 DECLARED = {"b": [], "k": [], "j": ["r", "w"], "o": ["r", "w"]}
-DEVS = ["auth.header_scheme_prefix_stripped"]
+KIND = {"b": "basic", "k": "apikey", "j": "jwt", "o": "oauth2"}
+# the modelled departures of the code from the design: the first is repaired (2680a7a), the second is recorded
+DEVS = ["client.bearer_prefix_on_empty_token", "auth.header_scheme_prefix_stripped"]
+# concrete names and values
+ATTR = {"k": "key", "j": "tok", "o": "atok"}
+SEC = {"k": "apikey:k", "j": "token", "o": "accesstoken"}
+HDR = {"k": "X-Key", "j": "X-Tok", "o": "X-Access"}
+QRY = {"k": "k", "j": "t", "o": "at"}
+CRED = {"k": "key1", "j": "tok1", "o": "at1"}
+USER, PASS = "u1", "p 1"
+B64 = base64.b64encode(("%s:%s" % (USER, PASS)).encode()).decode()
+
+
+def text(s, words):
+    """the text a sequence of model words stands for"""
+    return " ".join({"tok": CRED.get(s, ""), "userpass": B64, "garbage": "!!!"}.get(w, w) for w in words)
+
+
+def words(s, txt):
+    """model words of an observed text"""
+    back = {CRED.get(s, "\x00"): "tok", B64: "userpass", "!!!": "garbage"}
+    return [back.get(w, w) for w in txt.split(" ")]
 
 
 def level_design(lv, eff_lists):
@@ -20,16 +45,6 @@ def level_design(lv, eff_lists):
     return [{"schemes": list(r["schemes"]), "scopes": list(r["scopes"])} for r in eff_lists], False
 
 
-def catalogue_entry(vectors, idx):
-    """requirement list number idx as TLC printed it (taken from a vector whose method level uses it)"""
-    for v in vectors:
-        c = v["cfg"]
-        for lv in ("met", "svc", "api"):
-            if c[lv]["kind"] == "reqs" and c[lv]["idx"] == idx and lvl_effective(c) == lv:
-                return v["eff"]
-    return None
-
-
 def lvl_effective(c):
     if c["met"]["kind"] != "unset":
         return "met"
@@ -38,21 +53,40 @@ def lvl_effective(c):
     return "api"
 
 
+def wire_name(c, s):
+    """(location class, name) of scheme s's credential on the wire"""
+    loc = c["loc"][s]
+    if s == "b" or loc in ("dflt", "auth"):
+        return "header", "Authorization"
+    return ("header", HDR[s]) if loc == "hdr" else ("query", QRY[s])
+
+
+PER_DESIGN = 20
+
+
 def build(vectors):
-    """Group vectors into designs: one per (api, svc, keyloc); one method per distinct method level."""
+    """Group vectors into designs: flow space - one per (api, svc); cred space - PER_DESIGN methods each.  One method per
+    distinct (method level, locations of the used schemes, required / optional credentials)."""
     cat = {}
     for v in vectors:
         c = v["cfg"]
         lv = lvl_effective(c)
         if c[lv]["kind"] == "reqs":
             cat[c[lv]["idx"]] = v["eff"]
-    designs, index, where = [], {}, {}
+    designs, index, where, ncred = [], {}, {}, {}
     for n, v in enumerate(vectors):
         c = v["cfg"]
         need = [c[l]["idx"] for l in ("api", "svc", "met") if c[l]["kind"] == "reqs"]
         if any(i not in cat for i in need):
             continue   # a level's list never effective anywhere in this run: cannot render it
-        dkey = core.canon([c["api"], c["svc"], c["keyloc"]])
+        used = set(v["pred"]["used"])
+        mkey = core.canon([c["met"], {s: c["loc"][s] for s in sorted(used)}, c["credreq"]])
+        if c["space"] == "cred":
+            if mkey not in ncred:
+                ncred[mkey] = len(ncred) // PER_DESIGN
+            dkey = core.canon(["cred", ncred[mkey]])
+        else:
+            dkey = core.canon([c["api"], c["svc"]])
         if dkey not in index:
             index[dkey] = len(designs)
             apisec, _ = level_design(c["api"], cat.get(c["api"]["idx"]))
@@ -68,27 +102,26 @@ def build(vectors):
             designs.append(d)
         di = index[dkey]
         d = designs[di]
-        mkey = core.canon(c["met"])
         if mkey not in d["_methods"]:
             k = len(d["_methods"]) + 1
-            used = set(v["pred"]["used"])
+            req = bool(c["credreq"])
             attrs = [{"name": "a1", "type": {"kind": "int"}, "required": True}]
             http = {"routes": [{"verb": "POST", "path": "/m%d" % k}], "params": {}, "headers": {}, "responses": [{"status": 200}]}
-            if "b" in used:
-                attrs += [{"name": "user", "type": {"kind": "string"}, "required": True, "sec": "username"},
-                          {"name": "pass", "type": {"kind": "string"}, "required": True, "sec": "password"}]
-            if "k" in used:
-                attrs.append({"name": "key", "type": {"kind": "string"}, "required": True, "sec": "apikey:k"})
-                if c["keyloc"] == "header":
-                    http["headers"]["key"] = "X-Key"
-                else:
-                    http["params"]["key"] = "k"
-            if "j" in used:
-                attrs.append({"name": "tok", "type": {"kind": "string"}, "required": True, "sec": "token"})
-                http["headers"]["tok"] = "X-Tok" if "b" in used else "Authorization"   # basic auth owns the Authorization header
-            if "o" in used:
-                attrs.append({"name": "atok", "type": {"kind": "string"}, "required": True, "sec": "accesstoken"})
-                http["params"]["atok"] = "at"
+            if "b" in used:     # basic auth owns the Authorization header
+                attrs += [{"name": "user", "type": {"kind": "string"}, "required": req, "sec": "username"},
+                          {"name": "pass", "type": {"kind": "string"}, "required": req, "sec": "password"}]
+            for s in ("k", "j", "o"):
+                if s not in used:
+                    continue
+                attrs.append({"name": ATTR[s], "type": {"kind": "string"}, "required": req, "sec": SEC[s]})
+                loc = c["loc"][s]
+                if loc == "auth":
+                    http["headers"][ATTR[s]] = "Authorization"
+                elif loc == "hdr":
+                    http["headers"][ATTR[s]] = HDR[s]
+                elif loc == "query":
+                    http["params"][ATTR[s]] = QRY[s]
+                # "dflt": no mapping - goa maps the attribute to the Authorization header by itself
             m = {"name": "m%d" % k, "payload": {"attrs": attrs}, "result": {"attrs": [{"name": "r1", "type": {"kind": "int"}, "required": True}]}, "http": http}
             msec, mno = level_design(c["met"], cat.get(c["met"]["idx"]))
             if msec:
@@ -100,98 +133,258 @@ def build(vectors):
         where[n] = (di, d["_methods"][mkey])
     for d in designs:
         del d["_methods"]
+    # callers that take every n-th design (C01 quick: every 8th) should meet both spaces: the cred designs follow the 8th
+    credkeys = {index[k] for k in index if k.startswith('["cred"')}
+    flow = [i for i in range(len(designs)) if i not in credkeys]
+    order = flow[:8] + sorted(credkeys) + flow[8:]
+    newpos = {old: new for new, old in enumerate(order)}
+    designs = [designs[i] for i in order]
+    for n, d in enumerate(designs):
+        d["api"]["name"] = "a%d" % (n + 1)
+    where = {n: (newpos[di], m) for n, (di, m) in where.items()}
     return designs, where
+
+
+def handed(c, s):
+    """what the caller hands over for scheme s: None (nothing) or the text of the form (Security.tla Words)"""
+    f = c["form"][s]
+    if f == "absent":
+        return None
+    if s == "b":
+        return {"bare": "Basic " + B64, "lower": "basic " + B64, "other": "Bearer " + B64, "malformed": "Basic !!!"}[f]
+    return {"bare": "%s", "bearer": "Bearer %s", "lower": "bearer %s", "other": "Token %s", "spaces": "Bearer  %s", "empty": ""}[f].replace("%s", CRED[s])
 
 
 def scenario(v, sid, meth):
     c = v["cfg"]
-    used = set(v["pred"]["used"])
-    p = {"a1": 3}
-    if "b" in used:
-        p.update({"user": "u1", "pass": "p 1"})
-    if "k" in used:
-        p["key"] = "my key1" if c["keycred"] == "space" else "key1"
-    if "j" in used:
-        p["tok"] = "Bearer tok1" if c["tokcred"] == "bearer" else "tok1"
-    if "o" in used:
-        p["atok"] = "at1"
-    return {"id": sid, "service": "s1", "method": meth, "payload": p, "auth": {s: v["outcome"][s] for s in v["outcome"]},
+    used = sorted(v["pred"]["used"])
+    base = {"id": sid, "service": "s1", "method": meth, "auth": {s: v["outcome"][s] for s in v["outcome"]},
             "outcome": {"kind": "result", "value": {"r1": 7}}}
+    if c["via"] == "client":
+        p = {"a1": 3}
+        for s in used:
+            if s == "b":
+                p.update({"user": USER, "pass": PASS})      # the only form the generated client can produce
+            elif handed(c, s) is not None:
+                p[ATTR[s]] = handed(c, s)
+        base["payload"] = p
+        return base
+    headers, query = {"Content-Type": ["application/json"]}, []
+    for s in used:
+        t = handed(c, s)
+        if t is None:
+            continue
+        where, name = wire_name(c, s)
+        if where == "header":
+            headers[name] = [t]
+        else:
+            query.append("%s=%s" % (name, urllib.parse.quote(t, safe="")))
+    base["raw"] = {"method": "POST", "uri": "/m%s" % meth[1:] + ("?" + "&".join(query) if query else ""), "headers": headers, "body": '{"a1":3}'}
+    return base
 
 
-def project_call(e, v):
-    c, cred, s = v["cfg"], e["cred"], e["scheme"]
-    sent_key = "my key1" if c["keycred"] == "space" else "key1"
-    if e["kind"] == "basic":
-        what = "userpass" if cred.get("user") == "u1" and cred.get("pass") == "p 1" else "other:%s" % cred
-    elif e["kind"] == "apikey":
-        k = cred.get("key")
-        what = "key" if k == sent_key else ("key-after-space" if " " in sent_key and k == sent_key.split(" ", 1)[1] else "other:%s" % k)
-    elif e["kind"] == "jwt":
-        what = "token" if cred.get("token") == "tok1" else "other:%s" % cred.get("token")
-    else:
-        what = "accesstoken" if cred.get("token") == "at1" else "other:%s" % cred.get("token")
-    return {"scheme": s, "cred": what, "scopes": e["scopes"], "required": e["required"], "ok": e["verdict"]}
+def observed_wire(c, s, wreq):
+    """the credential of scheme s as it reached the server's socket: None or text"""
+    where, name = wire_name(c, s)
+    vals = (wreq.get("headers") or {}).get(name) if where == "header" else (wreq.get("query") or {}).get(name)
+    return None if not vals else vals[0]
 
 
-def req_scopes(s, r):
-    return r["scopes"] if s in ("j", "o") else []
-
-
-def judge(ctx, v, events):
-    """returns list of problem strings"""
-    eff, pred = v["eff"], v["pred"]
-    calls = [project_call(e, v) for e in hg.find(events, "auth")]
-    invoked = bool(hg.find(events, "invoke"))
+def project(v, events):
+    """the recorded exchange in the model's terms"""
+    c = v["cfg"]
+    calls = []
+    for e in hg.find(events, "auth"):
+        s, cred = e["scheme"], e["cred"]
+        if e["kind"] == "basic":
+            u, p = cred.get("user"), cred.get("pass")
+            w = ["userpass"] if (u, p) == (USER, PASS) else [""] if (u, p) == ("", "") else ["other-user", "other-pass"]
+        else:
+            w = words(s, cred.get("key") if e["kind"] == "apikey" else cred.get("token"))
+        calls.append({"scheme": s, "kind": e["kind"], "cred": w, "scopes": e["scopes"], "required": e["required"], "ok": e["verdict"]})
     wr = hg.find(events, "wire_resp")
     status = wr[0]["status"] if wr else 0
     try:
         ename = json.loads(wr[0]["body"]).get("name") if wr and status >= 400 else None
     except Exception:
         ename = "unparseable"
+    wq = hg.find(events, "wire_req")
+    wire = {}
+    for s in v["pred"]["used"]:
+        t = observed_wire(c, s, wq[0]) if wq else None
+        wire[s] = {"present": t is not None, "w": words(s, t) if t is not None else [""]}
+    return {"calls": calls, "invoked": bool(hg.find(events, "invoke")), "status": status, "errname": ename, "wire": wire,
+            "panic": bool(hg.find(events, "server_panic") or hg.find(events, "client_panic")), "sent": bool(wq)}
+
+
+def req_scopes(s, r):
+    return r["scopes"] if s in ("j", "o") else []
+
+
+def trimmed(ws):
+    """header values travel without leading / trailing white space (Security.tla DropLead / DropTrail)"""
+    ws = list(ws)
+    while len(ws) > 1 and ws[0] == "":
+        ws.pop(0)
+    while len(ws) > 1 and ws[-1] == "":
+        ws.pop()
+    return ws
+
+
+def cred_class(c, s, got):
+    """classification of a wrong credential from the case only"""
+    sent = words(s, handed(c, s) or "") if s != "b" else None
+    if s == "b":
+        what = "empty" if got == [""] else "other"
+    elif got == sent:
+        what = "prefix-kept"
+    elif len(sent) > 1 and got == sent[1:]:
+        what = "prefix-stripped"
+    elif got == [""]:
+        what = "empty"
+    else:
+        what = "other"
+    return "%s/%s/%s/%s" % (KIND[s], c["loc"][s], c["form"][s], what)
+
+
+def judge(v, obs):
+    """the oracle of Security.tla (terms printed by TLC with the vector) on one projected exchange -> problem strings"""
+    c, eff, pred = v["cfg"], v["eff"], v["pred"]
+    calls, invoked, status, ename = obs["calls"], obs["invoked"], obs["status"], obs["errname"]
     problems = []
-    if hg.find(events, "server_panic") or hg.find(events, "client_panic"):
+    if obs["panic"]:
         problems.append("panic")
+    if not obs["sent"]:
+        problems.append("no-request-on-the-wire")
+    used = set(pred["used"])
+    if c["via"] == "client":       # ClientWireForm
+        for s in sorted(used):
+            exp, got = pred["wire"][s], obs["wire"][s]
+            expw = trimmed(exp["w"]) if wire_name(c, s)[0] == "header" else exp["w"]
+            # an absent value and an empty header value are the same thing to the receiving server
+            if (exp["present"] and expw != [""]) != (got["present"] and got["w"] != [""]) or (exp["present"] and expw != [""] and expw != got["w"]):
+                problems.append("wire:%s/%s/%s" % (KIND[s], c["loc"][s], c["form"][s]))
+    if pred["refuse"]:             # NoCredentialNeverRuns
+        if calls:
+            problems.append("callback-without-credential")
+        if invoked:
+            problems.append("invoked-without-credential")
+        if not calls and not invoked and status != 400:
+            problems.append("refused-with:%s/%s" % (status, ename))
+        for cl in calls:
+            if cl["scheme"] in used and cl["cred"] not in pred["allowed"][cl["scheme"]]:
+                problems.append("credential:" + cred_class(c, cl["scheme"], cl["cred"]))
+        return problems
     satisfied = (not eff) or any(all(v["outcome"][s] for s in r["schemes"]) for r in eff)
     if invoked != satisfied:
         problems.append("invoked=%s-but-satisfied=%s" % (invoked, satisfied))
-    used = set(pred["used"])
     if not eff and calls:
         problems.append("callback-on-unsecured-method")
-    for c in calls:
-        if c["scheme"] not in used:
-            problems.append("callback-for-undesigned-scheme:" + c["scheme"])
+    for cl in calls:
+        s = cl["scheme"]
+        if s not in used:
+            problems.append("callback-for-undesigned-scheme:" + s)
             continue
-        exp = {"b": "userpass", "k": "key", "j": "token", "o": "accesstoken"}[c["scheme"]]
-        if c["cred"] != exp:
-            problems.append("credential:%s:%s" % (c["scheme"], c["cred"].split(":")[0]))
-        if sorted(c["scopes"]) != sorted(DECLARED[c["scheme"]]):
-            problems.append("declared-scopes:%s" % c["scheme"])
-        if not any(c["scheme"] in r["schemes"] and sorted(req_scopes(c["scheme"], r)) == sorted(c["required"]) for r in eff):
-            problems.append("required-scopes:%s" % c["scheme"])
-        if c["ok"] != v["outcome"][c["scheme"]]:
+        if cl["cred"] not in pred["allowed"][s]:          # CredentialFromDesignedPlace
+            problems.append("credential:" + cred_class(c, s, cl["cred"]))
+        if sorted(cl["scopes"]) != sorted(DECLARED[s]):
+            problems.append("declared-scopes:%s" % s)
+        if not any(s in r["schemes"] and sorted(req_scopes(s, r)) == sorted(cl["required"]) for r in eff):
+            problems.append("required-scopes:%s" % s)
+        if cl["ok"] != v["outcome"][s]:
             problems.append("harness-verdict-mismatch")
     if invoked and eff:
-        if not any(all(any(c["scheme"] == s and c["ok"] and sorted(c["required"]) == sorted(req_scopes(s, r)) for c in calls) for s in r["schemes"]) for r in eff):
+        if not any(all(any(cl["scheme"] == s and cl["ok"] and sorted(cl["required"]) == sorted(req_scopes(s, r)) for cl in calls) for s in r["schemes"]) for r in eff):
             problems.append("granted-without-a-fully-checked-requirement")
     if not invoked:
-        failing = {c["scheme"] for c in calls if not c["ok"]}
+        failing = {cl["scheme"] for cl in calls if not cl["ok"]}
         if not (status >= 400 and ename in {"unauthorized_" + s for s in failing}):
             problems.append("denied-with:%s/%s" % (status, ename))
-    return problems, {"calls": calls, "invoked": invoked, "status": status, "errname": ename}
+    return problems
+
+
+def same_as_model(v, obs):
+    """the exchange is exactly the run of the model the vector v was printed from (used to recognise named deviations)"""
+    c, pred = v["cfg"], v["pred"]
+    if obs["panic"] or not obs["sent"]:
+        return False
+    mine = [{"scheme": cl["scheme"], "cred": cl["cred"], "required": cl["required"], "ok": cl["ok"]} for cl in obs["calls"]]
+    if mine != pred["calls"] or obs["invoked"] != pred["invoked"]:
+        return False
+    if pred["rejected"] != (obs["status"] == 400 and not obs["calls"] and not obs["invoked"]):
+        return False
+    if c["via"] == "client":
+        for s in pred["used"]:
+            exp, got = pred["wire"][s], obs["wire"][s]
+            expw = trimmed(exp["w"]) if wire_name(c, s)[0] == "header" else exp["w"]
+            if (exp["present"] and expw != [""]) != (got["present"] and got["w"] != [""]) or (exp["present"] and expw != [""] and expw != got["w"]):
+                return False
+    return True
+
+
+def vkey(v):
+    return core.canon([v["cfg"], v["outcome"]])
+
+
+def quick_pick(vectors, seed):
+    """quick tier: a quarter of the cases (by hash of the configuration and the seed), and always every case of the
+    single-scheme lists of the cred space and every flow case whose API key contains a space"""
+    out = []
+    for v in vectors:
+        c = v["cfg"]
+        if c["space"] == "cred":
+            keep = c["met"]["idx"] <= 4
+        else:
+            keep = c["form"]["k"] == "other"
+        if keep or hashlib.sha1((core.canon(c) + str(seed)).encode()).digest()[0] < 64:
+            out.append(v)
+    return out
 
 
 def run(ctx):
     quick = ctx.quick()
-    ctx.cov["rule"] = ("cases = (requirement lists at API/service/method level incl. NoSecurity, key location, credential class, callback verdict vector) "
-                       "enumerated by TLC from Security.tla; non-trivial = >=2 schemes or >=2 requirements or inheritance/override involved; distinct = canonical JSON")
-    ctx.mc("mc/MC_Security", label="MC Security (all level combinations)")
-    ctx.mc_expect_violation("mc/MC_Security", consts={"Deviations": '{"auth.header_scheme_prefix_stripped"}'}, label="MC dev")
-    r = ctx.gen("mc/MC_Security", "gen/Gen_Security.cfg", label="Gen Security")
+    ctx.cov["rule"] = ("cases = (requirement lists at API/service/method level incl. NoSecurity, credential location / form / sender / "
+                       "required-or-optional per scheme, callback verdict vector) enumerated by TLC from Security.tla; non-trivial = >=2 schemes or "
+                       ">=2 requirements or inheritance/override involved or a credential that does not travel bare / a raw request / optional credential attributes; distinct = canonical JSON")
+    ctx.assumptions += ["credential locations are the ones goa's DSL documents (Authorization header implicit / explicit, header, query string); "
+                        "credentials in the request body or in a cookie are not part of the envelope"]
+    # the model runs do not depend on the code under test: side by side with generation and compilation
+    mc_err = []
+    devruns = {}
+    maxodd = 2 if quick else 4     # cred space: how many schemes of one method may travel in a form other than bare
+
+    def dev_vectors(d, spaces):
+        """the generator's run with deviation d switched on (Emit as the only invariant): {case key: vector}"""
+        import re
+        k = (d, tuple(spaces))
+        if k not in devruns:
+            txt = open(os.path.join(core.SPEC, "gen", "Gen_Security.cfg")).read()
+            txt = re.sub(r"(?m)^(\s*Deviations\s*=).*$", lambda m: m.group(1) + ' {"%s"}' % d, txt)
+            txt = re.sub(r"(?m)^(\s*Spaces\s*=).*$", lambda m: m.group(1) + " {%s}" % ", ".join('"%s"' % s for s in spaces), txt)
+            txt = re.sub(r"(?m)^(\s*MaxOdd\s*=).*$", lambda m: m.group(1) + " %d" % maxodd, txt)
+            txt = re.sub(r"(?m)^INVARIANTS.*$", "INVARIANTS Emit", txt)
+            rd = ctx.gen("mc/MC_Security", cfg_text=txt, label="Gen Security with " + d)
+            devruns[k] = {vkey(x): x for x in rd.vectors}
+        return devruns[k]
+
+    def guarded(f, *a, **kw):
+        def go():
+            try:
+                f(*a, **kw)
+            except BaseException as e:     # re-raised in the main thread
+                mc_err.append(e)
+        th = threading.Thread(target=go)
+        th.start()
+        return th
+    side = [guarded(ctx.mc, "mc/MC_Security", consts={"MaxOdd": maxodd}, label="MC Security (all level combinations, credential travel)")]
+    for d in DEVS:
+        side.append(guarded(ctx.mc_expect_violation, "mc/MC_Security", consts={"Deviations": '{"%s"}' % d, "Spaces": '{"cred"}', "MaxOdd": maxodd}, label="MC dev " + d))
+        if d in ctx.known:     # a recorded finding will be met again: have its predictions ready
+            side.append(guarded(dev_vectors, d, ["cred"]))
+    r = ctx.gen("mc/MC_Security", "gen/Gen_Security.cfg", consts={"MaxOdd": maxodd}, label="Gen Security")
     vectors = r.vectors
     if quick:
-        import hashlib
-        vectors = [v for v in vectors if hashlib.sha1((core.canon(v["cfg"]) + str(ctx.seed)).encode()).digest()[0] < 64 or v["cfg"]["keycred"] == "space"]
+        vectors = quick_pick(vectors, ctx.seed)
     designs, where = build(vectors)
     pl = hg.Pipeline(ctx, "gen-sec")
     pl.prepare(designs)
@@ -199,6 +392,8 @@ def run(ctx):
     ctx.log("%d vectors, %d designs (%d unusable: %s), %d methods set aside" % (len(vectors), len(designs), len(pl.failed), list(pl.failed.items())[:2], len(pl.bad_methods)))
     for i, f in pl.failed.items():
         ctx.notes.append("design %d unusable: %s" % (i, str(f)[:500]))
+    for (i, m), why in list(pl.bad_methods.items())[:20]:
+        ctx.notes.append("design %d method %s set aside: %s" % (i, m, str(why)[:300]))
     scen, meta = {}, {}
     for n, v in enumerate(vectors):
         if n not in where:
@@ -209,26 +404,61 @@ def run(ctx):
         sid = "c%d" % n
         scen.setdefault(di, []).append(scenario(v, sid, meth))
         meta[sid] = v
+    if not meta:
+        raise core.Infra("no case could be run")
     events = pl.run_all(bins, scen)
+    for th in side:
+        th.join()
+    if mc_err:
+        raise mc_err[0]
     nontrivial = set()
-    dev_vectors = None
+    mismatches = []
+    accepted = None
     for sid, v in meta.items():
         ctx.cov["evaluations"] += 1
-        eff = v["eff"]
-        if len(eff) >= 2 or any(len(r["schemes"]) >= 2 for r in eff) or v["cfg"]["met"]["kind"] == "unset" or v["cfg"]["met"]["kind"] == "nosec":
-            nontrivial.add(core.canon([v["cfg"], v["outcome"]]))
-        problems, obs = judge(ctx, v, events[sid])
+        eff, c = v["eff"], v["cfg"]
+        travel = c["via"] == "raw" or not c["credreq"] or any(c["form"][s] != "bare" for s in v["pred"]["used"])
+        if len(eff) >= 2 or any(len(r["schemes"]) >= 2 for r in eff) or c["met"]["kind"] in ("unset", "nosec") or travel:
+            nontrivial.add(vkey(v))
+        obs = project(v, events[sid])
+        problems = judge(v, obs)
         if problems:
-            key = None
-            # explained by the named deviation?  (the only modelled one changes the API key credential)
-            if problems == ["credential:k:key-after-space"] and v["cfg"]["keyloc"] == "header" and v["cfg"]["keycred"] == "space":
-                key = "auth.header_scheme_prefix_stripped"
-            for p in problems:
-                ctx.violation(key or "C06/%s/%s" % (lvl_effective(v["cfg"]), p), "%s: requirement list %s verdicts %s -> %s" % (
-                    p, json.dumps(eff), json.dumps({s: v["outcome"][s] for s in v["pred"]["used"]}), json.dumps(obs)[:400]),
-                    {"vector": v, "observed": obs, "events": events[sid]})
-        elif ctx.cov["evaluations"] % 400 == 1:
-            ctx.sample({"cfg": v["cfg"], "eff": eff, "outcome": v["outcome"], "observed": obs})
+            mismatches.append((sid, v, obs, problems))
+        else:
+            if accepted is None and obs["calls"]:
+                accepted = (v, obs)
+            if ctx.cov["evaluations"] % 400 == 1:
+                ctx.sample({"cfg": c, "eff": eff, "outcome": v["outcome"], "observed": obs})
+    # named deviations: a mismatching exchange that is exactly the run of the model with one deviation switched on
+    spaces = sorted({m[1]["cfg"]["space"] for m in mismatches})
+
+    def explained_by(v, obs):
+        for d in DEVS:
+            dv = dev_vectors(d, spaces).get(vkey(v))
+            if dv is not None and same_as_model(dv, obs):
+                return d
+        return None
+    for sid, v, obs, problems in mismatches:
+        key = explained_by(v, obs)
+        for p in problems:
+            ctx.violation(key or "C06/%s/%s" % (lvl_effective(v["cfg"]), p), "%s: travel %s requirement list %s verdicts %s -> %s" % (
+                p, json.dumps({s: [v["cfg"]["loc"][s], v["cfg"]["form"][s]] for s in v["pred"]["used"]} | {"via": v["cfg"]["via"], "required": v["cfg"]["credreq"]}),
+                json.dumps(v["eff"]), json.dumps({s: v["outcome"][s] for s in v["pred"]["used"]}), json.dumps(obs)[:500]),
+                {"vector": v, "observed": obs, "events": events[sid]})
+    if ctx.selftest or not quick:
+        # binding: one field of an accepted exchange corrupted must be rejected
+        if accepted is None:
+            raise core.Infra("selftest: no accepted exchange with a callback")
+        v, obs = accepted
+        bad = json.loads(json.dumps(obs))
+        bad["calls"][0]["cred"] = ["Bearer"] + bad["calls"][0]["cred"]
+        if not judge(v, bad):
+            raise core.Infra("selftest: a corrupted credential was accepted")
+        bad = json.loads(json.dumps(obs))
+        bad["invoked"] = not bad["invoked"]
+        if not judge(v, bad):
+            raise core.Infra("selftest: a flipped invoke flag was accepted")
+        ctx.log("selftest: corrupted observations rejected")
     ctx.cov["distinct_nontrivial"] = len(nontrivial)
     ctx.cov["designs"] = len(designs)
 
